@@ -256,6 +256,30 @@ def explore(h, p, limits=None, jobs=None):
     return tot
 
 
+def explore_many(h, plist, jobs=None):
+    """harnesses whose parameter sets are many small independent explorations: one worker task per parameter set"""
+    t0 = time.time()
+    pl = pool(jobs)
+    tasks = []
+    for p in plist:
+        p = dict(p)
+        limits = dict(p.pop("_limits", {}))
+        tasks.append((h.name, p, [], None, limits))
+    tot = {"st": {}, "cexs": [], "sig_count": {}, "samples": [], "unsupported": {}, "witness": None, "queries": 0, "solver_s": 0.0, "concretizations": 0, "fork_sites": []}
+    per = []
+    for args, r in zip(tasks, pl.imap(_explore_shard, tasks, chunksize=1)):
+        for c in r["cexs"]:
+            c["params"] = args[1]
+        if r["frontier"]:
+            r["st"]["budget"] = r["st"].get("budget", 0) + len(r["frontier"])  # path cap hit: the rest of this exploration is inconclusive
+        _merge(tot, r)
+        per.append({"params": args[1], "paths": r["st"]["paths"], "reached": r["st"]["reached"], "violated": r["st"]["violated"], "exceptions": r["st"]["exceptions"], "cap_hit": len(r["frontier"]), "wall_s": round(r["wall"], 2)})
+    tot["wall_s"] = time.time() - t0
+    tot["shards"] = len(tasks)
+    tot["per_params"] = per
+    return tot
+
+
 # --------------------------------------------------------------------------
 # replay of a counterexample against the un-instrumented code, in a fresh interpreter
 
